@@ -28,6 +28,8 @@ def handle : List String → Option String
       | _ => none)
     let labels ← parseNats labels
     pure ((cmp "linkage_to_bio_tree" Gen.linkage_to_bio_tree.untranslatable (resStr cladeStr (Gen.linkage_to_bio_tree rows labels)) real).getD "ok")
+  | ["pyg.getitem", sigs, ix, real] => do
+    pure ((getitem (← parseNatLists sigs) (← parseIdxVal ix) real).getD "ok")
   | ["pyg.chunks", n, size, real] => do
     pure ((chunks (← n.toInt?) (← size.toInt?) real).getD "ok")
   | ["pyg.chk", n, i, real] => do
